@@ -5,7 +5,7 @@ import sys, os, subprocess, json, shutil, glob, re
 ID = sys.argv[1]; extra = sys.argv[2:]
 tier = os.environ.get('SEED_TIER', 'quick')
 conf = open(f'/tmp/seed/confirm-{ID}.txt').read() if os.path.exists(f'/tmp/seed/confirm-{ID}.txt') else ''
-for m in sorted(glob.glob(f'/tmp/seed/out-{ID}/m*')):
+for m in sorted(d for d in glob.glob(f'/tmp/seed/out-{ID}/m*') if os.path.isdir(d)):
     k = os.path.basename(m)
     sec = conf.split(f'== {ID} {k}')[1].split('== ')[0] if f'== {ID} {k}' in conf else ''
     suite_ok = bool(re.search(r'suite: \d+ passed 0 failed ; build errors: 0', sec))
